@@ -68,7 +68,9 @@ Cands == CASE CandsId = "pair"   -> <<<<1, 1>>, <<1, 2>>>>
            [] CandsId = "cols"   -> <<<<0, 0>>, <<0, 1>>, <<0, 2>>, <<0, 254>>, <<0, 255>>, <<1, 0>>, <<1, 254>>, <<1, 255>>>>
            [] CandsId = "corner" -> <<<<0, 0>>, <<0, 255>>, <<65535, 0>>, <<65535, 255>>>>
 
-Sst == <<"s0", "s1">>     \* string ids; the harness maps them to real text
+\* string ids (the harness maps them to real text); "" = an empty shared string: the table has one
+\* at its first, a middle and its last index, LABELSST cells refer to the others only
+Sst == <<"", "s0", "", "s1", "">>
 
 VARIABLES i, toks, doc, ncell, nign
 vars == <<i, toks, doc, ncell, nign>>
@@ -117,7 +119,7 @@ PutOther(kind) ==
          c == Pos[2]
          S(id) == [t |-> "s", v |-> id]
      IN \/ /\ kind = "sst"
-           /\ \E x \in 0..(Len(Sst) - 1) :
+           /\ \E x \in {y \in 0..(Len(Sst) - 1) : Sst[y + 1] # ""} :
                 Emit(<<[k |-> "labelsst", r |-> r, c |-> c, isst |-> x]>>, Cell(Pos, S(Sst[x + 1])), 1)
         \/ /\ kind \in {"label8", "label16"}
            /\ Emit(<<[k |-> "label", r |-> r, c |-> c, s |-> "s1", hi |-> (kind = "label16")]>>, Cell(Pos, S("s1")), 1)
@@ -172,7 +174,7 @@ Why(name) == PrintT(<<"WHY", name>>) /\ FALSE
 Refines ==
   done => LET asis  == TLCEval(AsIs(toks, Sst))
               ideal == TLCEval(RangeOf(doc))
-          IN /\ PrintT(<<"REPLAY", ToJson([tokens |-> toks, ideal |-> ideal, asis |-> asis, dev |-> {}])>>)
+          IN /\ PrintT(<<"REPLAY", ToJson([tokens |-> toks, sst |-> Sst, ideal |-> ideal, asis |-> asis, dev |-> {}])>>)
              /\ Matches(asis, ideal) \/ Why("Refines: the record walk does not yield the stored cells")
 
 --------------------------------------------------------------------------
